@@ -190,6 +190,17 @@ def create_or_open(exists, mode_k):
     ex = sx.conc(exists) == 1
     log = []
 
+    class _Opened:
+        """the array an earlier run of the same plan left at the path: it has the declared layout (the fake used to return the bare string
+        'opened'; since fix 13b71d9 the code under test reads shape / chunks / dtype of what it opens)"""
+
+        shape, chunks, dtype = (4,), (2,), __import__("numpy").dtype("float64")
+
+        def __eq__(self, other):
+            return other == "opened"
+
+        __hash__ = None
+
     class FakeZarr:
         class errors:
             class ContainsArrayError(Exception):
@@ -211,7 +222,7 @@ def create_or_open(exists, mode_k):
             log.append(("open",))
             if not ex:
                 raise FileNotFoundError("no array")
-            return "opened"
+            return _Opened()
 
     from engine import loader
 
